@@ -19,6 +19,8 @@ func c11(c *Check) {
 	c.Rule("C11/conversions", "frozen table: each of the four conversion functions performs exactly its escrow/mint (burn/unescrow, transfer/mint, escrow/release/burn) effects with the message's amount and parties, propagates every error, and reaches success only after the post-call balance equals the pre-call balance ± the amount on the side it moves", 60)
 	n := c.Frozen("C11")
 	c.Extra["frozen_entries"] = n
+	c.Rule("C11/approval-scan-complete", "monitorApprovalEvent accepts a call result only after looking at every log: an Approval event behind another event is still refused", 1)
+	allLogsProcessed(c, "C11/approval-scan-complete", agK+"Keeper.monitorApprovalEvent")
 
 	c.Rule("C11/ibc-conversion-all-or-nothing", "the automatic conversion of the ICS-20 hook (anchored in ibc_hook.go) runs on a cache context that is flushed only when ConvertCoin succeeded, so a conversion failing after its escrow step leaves the received vouchers untouched (shared with C16)", 4)
 	hookCacheRule(c, "C11/ibc-conversion-all-or-nothing", Macros{
